@@ -706,6 +706,22 @@ def run(project: Project, rep, tier: str):
            and isinstance(fi_.node, (ast.FunctionDef, ast.AsyncFunctionDef))]
     if fns:
         dtype_rule.run_on(project, rep, "AR-DTYPE", fns)
+    # AR-RETVAL: an operator that takes the operand's data from the *return value* of compute_landscape() gets None when the
+    # operand was built with compute=False and is computed by that very call (rules/retval_rule.py)
+    from . import retval_rule
+    from .oneshot import reachable_functions
+    ops = [q_ for q_, fi_ in project.functions.items()
+           if q_.startswith(("persim.landscapes.exact.", "persim.landscapes.approximate.", "persim.landscapes.tools.",
+                             "persim.landscapes.auxiliary.", "persim.landscapes.base."))
+           and (fi_.name in ("__add__", "__sub__", "__neg__", "__mul__", "__rmul__", "__truediv__") or fi_.cls is None)]
+    chain = [fi_ for fi_ in reachable_functions(project, ops, limit=120) if fi_.name != "compute_landscape_by_depth"]
+    rv = retval_rule.analyse(project, chain)
+    for h in rv:
+        rep.refuted("AR-RETVAL", h["fi"], h["node"], h["why"] + ": the operation fails on a lazily built operand and succeeds once "
+                    "it has been computed", construct=f"{h['fi'].qualname}: {ast.unparse(h['node'])[:60]}")
+    if not rv:
+        rep.discharged("AR-RETVAL", None, None, f"{len(chain)} operator / tool functions: none uses the value of a call that can "
+                                                f"return nothing", nontrivial=False)
     for rn, n in (("AR-EFFECT", 30), ("AR-OWN", 30), ("AR-LAZY", 4), ("AR-GUARD", 9), ("AR-UNARY", 11), ("AR-PAD", 4), ("AR-SNAP", 2), ("AR-LC", 1), ("AR-MERGE", 1), ("AR-DTYPE", 1)):
         rep.floor(rn, n)
     for t in ("numpy.pad", "numpy.interp", "itertools.zip_longest"):
